@@ -484,7 +484,7 @@ impl<'a> Interp<'a> {
                     // wait for the table AND for the groups' member counts, up to 20 s on a loaded machine;
                     // what is still wrong after that is judged by the snapshot comparison)
                     let want = 1 + self.extra.len();
-                    let deadline = std::time::Instant::now() + std::time::Duration::from_secs(20);
+                    let deadline = std::time::Instant::now() + std::time::Duration::from_secs(10);
                     loop {
                         let cnt = n.block_on(async { self.tcp.as_ref().unwrap().get_clients().await }).map(|v| v.iter().filter(|c| c.transport.to_lowercase() == "tcp").count()).unwrap_or(0);
                         let mut groups_ok = true;
